@@ -50,12 +50,18 @@ def history_probe(rep, cov, tier, rng):
     """Histories with EXPECTED results from the independent Python reference (so the baseline has no process or thread history
     at all): low-level and API-level operations of all six sets, several keys per set, look-alike secret keys (same tr, one rho
     bit flipped — a cache keyed on the wrong field would confuse them), API calls alternating contexts / absent context / pure /
-    pre-hash on the same thread (stale scratch would show), run in order on one thread twice and shuffled on 1..16 threads."""
+    pre-hash on the same thread (stale scratch would show), interleaved with NOISE operations that have no expectation — hedged /
+    randomized signing and unseeded key generation with the real RNG, and malformed calls (key one byte short) that panic inside the
+    library under catch_unwind, so that counters, poisoned locks or half-written scratch would show in the others —, run in order on one thread twice and shuffled on 1..16 threads."""
     from props.c07 import mprime
     SETID = {n: i for i, n in enumerate(ALL)}
     ops = []
     def add(kind, cp, bs, expect_bytes, ctx=None, mode=0):
         ops.append((kind, SETID[cp], mode, ctx, fnv(expect_bytes).to_bytes(8, "little"), bs))
+    def noise(kind, cp, bs, ctx=None, mode=0):
+        """operations without an expectation: randomized/hedged signing and unseeded generation with the real RNG, and malformed
+        calls that panic inside the library (run under catch_unwind) — they only leave history behind for the others"""
+        ops.append((kind, SETID[cp], mode, ctx, b"\xff" * 8, bs))
     for cp in ALL:
         p = Par(cp)
         for kidx in range(2):
@@ -73,6 +79,11 @@ def history_probe(rep, cov, tier, rng):
                         add(2, cp, [sig, m, pk], b"\x01")
                         bad = bytearray(sig); bad[rng.randrange(len(bad))] ^= 1 << rng.randrange(8)
                         add(2, cp, [bytes(bad), m, pk], bytes([1 if pyref.verify(p, pk, m, bytes(bad)) else 0]))
+            if kidx == 0:
+                m0 = bytes(rng.randrange(256) for _ in range(12))
+                noise(5, cp, [sk, m0]); noise(6, cp, []); noise(7, cp, [bytes(p.sig), m0, pk]); noise(8, cp, [sk, m0])
+                if p.mldsa:
+                    noise(9, cp, [sk, m0], None, 0); noise(9, cp, [sk, m0], b"h", 1)
             # API level, alternating descriptors on the same thread
             m = bytes(rng.randrange(256) for _ in range(20))
             if p.mldsa:
@@ -93,6 +104,9 @@ def history_probe(rep, cov, tier, rng):
     for threads, rounds in plan:
         order = list(ops)
         rng.shuffle(order)
+        # make sure every kind of noise operation also occurs EARLY in the history (before most expectations are checked)
+        early = [o for o in order if o[4] == b"\xff" * 8]
+        order = early[: len(early) // 2] + [o for o in order if o not in early[: len(early) // 2]]
         args = [threads, rounds, rng.randrange(1 << 60)]
         for kind, sid, mode, ctx, exp, bs in order:
             args += [kind, sid, mode, ctx if ctx is not None else 0, exp, len(bs)] + list(bs)
@@ -105,13 +119,14 @@ def history_probe(rep, cov, tier, rng):
             if r[1] or r[4]:
                 k = r[2] % len(order) if r[2] >= 0 else r[5]
                 o = order[k]
-                what = {0: "seeded key generation", 1: "deterministic signing (core)", 2: "verification (core)", 3: "API signing", 4: "API verification"}[o[0]]
+                what = {0: "seeded key generation", 1: "deterministic signing (core)", 2: "verification (core)", 3: "API signing", 4: "API verification"}.get(o[0], "noise")
                 rep.violation("result depends on call history / other threads: %d in-order and %d interleaved results differ from the history-free expectation; "
                               "first: %s, set %s, mode %d, ctx %s (operation %d of the history, %d threads)" %
                               (r[1], r[4], what, ALL[o[1]], o[2], "None" if o[3] is None else o[3].hex()[:16], k, threads),
                               {"cases": [case], "first_operation": {"kind": what, "set": ALL[o[1]], "args": [b.hex() for b in o[5]],
                                                                    "ctx": None if o[3] is None else o[3].hex(), "mode": o[2]}}, True)
-    cov["history_ops_with_independent_expectation"] = len(ops)
+    cov["history_ops_with_independent_expectation"] = len([o for o in ops if o[4] != b"\xff" * 8])
+    cov["history_noise_ops(randomized, unseeded, panicking malformed calls)"] = len([o for o in ops if o[4] == b"\xff" * 8])
     cov["evaluations"] = cov.get("evaluations", 0) + total
     cov["distinct_nontrivial"] = cov.get("distinct_nontrivial", 0) + len(ops)
 
